@@ -10,6 +10,7 @@ import (
 	"net/http"
 	"net/http/httptest"
 	"strings"
+	"sync"
 	"sync/atomic"
 	"testing"
 	"time"
@@ -23,7 +24,7 @@ import (
 func TestC16GateHistory(t *testing.T) {
 	rep := NewReport("C16")
 	defer rep.Finish(t)
-	rep.Rule = "every history of spec/GateHistory.tla (up to MaxLen requests: entitled in two attribute layouts, another value, no such attribute, no cookie, expired token, token of another deployment - at least two different required outcomes per history) is sent through ONE RequireAccount(RequireAttribute(groups, admins)(h)) value per deployment (RSA and ECDSA keys); every request must be served / refused / sent to the IdP as its own session demands"
+	rep.Rule = "every history of spec/GateHistory.tla (up to MaxLen requests: entitled in two attribute layouts, another value, the required value in another letter case, a Unicode case-folding look-alike of it, a proper prefix of it, no such attribute, no cookie, expired token, token of another deployment - at least two different required outcomes per history) is sent through ONE RequireAccount(RequireAttribute(groups, admins)(h)) value per deployment (RSA and ECDSA keys); every request must be served / refused / sent to the IdP as its own session demands"
 	lines := loadLines(t, "gatehist.ndjson")
 	if len(lines) == 0 {
 		rep.Break("no histories")
@@ -72,6 +73,10 @@ func TestC16GateHistory(t *testing.T) {
 		toks["entitled"] = mk(d, "alice", [][]c16ConcAttr{{{Fn: "groups", Name: "urn:groups", Vals: []string{"admins"}}}})
 		toks["entitled-2nd-value"] = mk(d, "carol", [][]c16ConcAttr{{{Fn: "mail", Name: "urn:mail", Vals: []string{"c@example.com"}}}, {{Fn: "groups", Name: "urn:groups", Vals: []string{"users", "admins"}}}})
 		toks["other-value"] = mk(d, "bob", [][]c16ConcAttr{{{Fn: "groups", Name: "urn:groups", Vals: []string{"users", "administrators"}}}})
+		// near misses of the required value "admins": only the string itself carries it
+		toks["value-other-case"] = mk(d, "oscar", [][]c16ConcAttr{{{Fn: "groups", Name: "urn:groups", Vals: []string{"users", "ADMINS", "Admins"}}}})
+		toks["value-fold-lookalike"] = mk(d, "frank", [][]c16ConcAttr{{{Fn: "groups", Name: "urn:groups", Vals: []string{"admin\u017f"}}}}) // LATIN SMALL LETTER LONG S
+		toks["value-prefix"] = mk(d, "peggy", [][]c16ConcAttr{{{Fn: "groups", Name: "urn:groups", Vals: []string{"admin", "adm", ""}}}})
 		toks["no-attribute"] = mk(d, "dave", [][]c16ConcAttr{{{Fn: "mail", Name: "urn:mail", Vals: []string{"admins"}}}})
 		toks["foreign"] = mk(other, "mallory", [][]c16ConcAttr{{{Fn: "groups", Name: "urn:groups", Vals: []string{"admins"}}}})
 		if len(mintFail) > 0 {
@@ -85,10 +90,12 @@ func TestC16GateHistory(t *testing.T) {
 		return
 	}
 	clock.Store(60)
+	vcSeen, vcMu := map[string]int{}, sync.Mutex{}
 	parallel(len(lines), func(i int) {
 		var h struct {
 			Steps []struct {
 				K   string `json:"k"`
+				Vc  string `json:"vc"`
 				Req string `json:"req"`
 			} `json:"steps"`
 		}
@@ -99,6 +106,13 @@ func TestC16GateHistory(t *testing.T) {
 		var ks []string
 		for _, s := range h.Steps {
 			ks = append(ks, s.K)
+			if (s.Req == "served") != (s.Vc == "exact") {
+				rep.Break("history step %s: value class %q with required outcome %q", s.K, s.Vc, s.Req)
+				return
+			}
+			vcMu.Lock()
+			vcSeen[s.Vc]++
+			vcMu.Unlock()
 		}
 		hid := strings.Join(ks, ">")
 		for _, dp := range depls {
@@ -149,4 +163,11 @@ func TestC16GateHistory(t *testing.T) {
 		}
 	})
 	rep.Extra["gate_histories"] = len(lines)
+	rep.Extra["gate_history_requests_per_value_class"] = vcSeen
+	// counted from the histories (what the model requires): every class of attribute value is presented
+	for _, vc := range []string{"exact", "otherCase", "foldLookalike", "prefix", "other", "absent", "noSession"} {
+		if vcSeen[vc] == 0 && rep.Broken == "" {
+			rep.Break("vacuous: no request whose session's attribute value is of class %q", vc)
+		}
+	}
 }
